@@ -808,6 +808,7 @@ struct Gen {
     seeds: i64,
     instants: Vec<u64>,
     ids: Vec<i64>,
+    pending: bool,
 }
 impl Gen {
     fn pick<'a>(&mut self, xs: &[&'a str]) -> &'a str {
@@ -832,10 +833,15 @@ impl Gen {
     }
     fn step(&mut self, endpoint: bool) -> J {
         let via = if endpoint && self.rng.gen_bool(0.5) { "req" } else { "api" };
-        let mut s = match self.rng.gen_range(0..100) {
+        let mut choice = self.rng.gen_range(0..100);
+        if (14..=33).contains(&choice) && !self.pending && self.rng.gen_bool(0.75) {
+            choice = 0; // a claim needs a code to be interesting
+        }
+        let mut s = match choice {
             0..=13 => {
                 self.starts += 1;
                 self.instants.push(self.now + CODE_TTL);
+                self.pending = true;
                 st("Start")
             }
             14..=33 => {
@@ -848,6 +854,9 @@ impl Gen {
                 let mut s = claim(c, [-1, 0, 1, 2, 3, 3, 4][self.rng.gen_range(0..if via == "req" { 7 } else { 6 })]);
                 if self.rng.gen_bool(0.12) {
                     s["cvar"] = json!(self.pick(&["ws", "prefix", "ext", "empty"]));
+                }
+                if c == self.starts && s["cvar"] == "exact" {
+                    self.pending = false;
                 }
                 self.claims += 1; // upper bound: the runner names a secret that does not exist "unknown"
                 self.instants.push(self.now + TOKEN_TTL);
@@ -883,7 +892,10 @@ impl Gen {
                 self.now += dt;
                 tick(dt)
             }
-            82..=89 => st("Reload"),
+            82..=89 => {
+                self.pending = false;
+                st("Reload")
+            }
             _ if endpoint => {
                 let kind = self.pick(&["status", "status", "restart", "restart", "io.unforce"]);
                 let mut s = req(kind, 0);
@@ -936,7 +948,7 @@ pub fn gen(args: &[String]) -> i32 {
     let mut rng = StdRng::seed_from_u64(seed ^ 0x9a1_21f9);
     for n in 0..runs {
         let endpoint = rng.gen_range(0..100) < endpoint_share;
-        let mut g = Gen { rng: StdRng::seed_from_u64(rng.gen()), now: T0, starts: 0, claims: 0, seeds: 0, instants: vec![], ids: vec![] };
+        let mut g = Gen { rng: StdRng::seed_from_u64(rng.gen()), now: T0, starts: 0, claims: 0, seeds: 0, instants: vec![], ids: vec![], pending: false };
         // a file from before in a third of the runs
         let mut seedv = Vec::new();
         if g.rng.gen_bool(0.33) {
